@@ -772,6 +772,9 @@ func init() {
 	reg("math/rand.Uint32", randInt(32, false))
 	reg("math/rand.Uint64", randInt(64, false))
 	reg("(*math/rand.Rand).Int", func(ex *Exec, st *State, fr *Frame, args []Value) (Value, ctlT) {
+		if p, ok := args[0].(PtrVal); ok && p.Obj > 0 && st.guardOn {
+			ex.eraser(st, fr, PtrVal{Obj: p.Obj, Path: []int32{0}}, true, watchDecl{name: "rand.Rand", t: types.Typ[types.Int]})
+		}
 		return randInt(64, true)(ex, st, fr, nil)
 	})
 	randN := func(ex *Exec, st *State, fr *Frame, n *Term) (Value, ctlT) {
@@ -782,8 +785,30 @@ func init() {
 	reg("math/rand.Intn", func(ex *Exec, st *State, fr *Frame, args []Value) (Value, ctlT) { return randN(ex, st, fr, args[0].(*Term)) })
 	reg("math/rand.Int63n", func(ex *Exec, st *State, fr *Frame, args []Value) (Value, ctlT) { return randN(ex, st, fr, args[0].(*Term)) })
 	reg("math/rand.Int31n", func(ex *Exec, st *State, fr *Frame, args []Value) (Value, ctlT) { return randN(ex, st, fr, args[0].(*Term)) })
-	reg("(*math/rand.Rand).Intn", func(ex *Exec, st *State, fr *Frame, args []Value) (Value, ctlT) { return randN(ex, st, fr, args[1].(*Term)) })
-	reg("(*math/rand.Rand).Int63n", func(ex *Exec, st *State, fr *Frame, args []Value) (Value, ctlT) { return randN(ex, st, fr, args[1].(*Term)) })
+	// a *rand.Rand is an opaque object (NewSource / New allocate); it is not safe for concurrent use, so every method
+	// call counts as a write to the object for the lockset analysis whenever guard checking is on
+	randTouch := func(ex *Exec, st *State, fr *Frame, recv Value) {
+		p, ok := recv.(PtrVal)
+		if !ok || p.Obj <= 0 || !st.guardOn {
+			return
+		}
+		ex.eraser(st, fr, PtrVal{Obj: p.Obj, Path: []int32{0}}, true, watchDecl{name: "rand.Rand", t: types.Typ[types.Int]})
+	}
+	reg("math/rand.NewSource", func(ex *Exec, st *State, fr *Frame, args []Value) (Value, ctlT) {
+		return IfaceVal{}, ctlRet
+	})
+	reg("math/rand.New", func(ex *Exec, st *State, fr *Frame, args []Value) (Value, ctlT) {
+		rt := ex.prog.byPath["math/rand"].Type("Rand").Type()
+		return st.newPtr(ex.zero(rt)), ctlRet
+	})
+	reg("(*math/rand.Rand).Intn", func(ex *Exec, st *State, fr *Frame, args []Value) (Value, ctlT) {
+		randTouch(ex, st, fr, args[0])
+		return randN(ex, st, fr, args[1].(*Term))
+	})
+	reg("(*math/rand.Rand).Int63n", func(ex *Exec, st *State, fr *Frame, args []Value) (Value, ctlT) {
+		randTouch(ex, st, fr, args[0])
+		return randN(ex, st, fr, args[1].(*Term))
+	})
 	reg("math/rand.Seed", func(ex *Exec, st *State, fr *Frame, args []Value) (Value, ctlT) { return nil, ctlRet })
 }
 
